@@ -159,6 +159,16 @@ CHECKS = {
    design="4 C07",
    note=COMMON_NOTE + "Model = create(sever(parse(file))) through the generic interpreter; intelhex writer not modelled (files read back).",
    technique="Lean 4 proof (decide over generated layout, list lemmas for find/slot) + correspondence on memory images + per-slot direct check"),
+ "C13": dict(
+   text="Lean theorems, for every SHA-1 function and all names: C13_agree (the class identifier built by SuitUUID.from_obj from namespace+name, the one written into the MPI "
+        "record and the one keyed in the role table are uuid5(uuid5(DNS, vendor), class); the vendor identifier is uuid5(DNS, vendor)), C13_dns (decide: the interpreter's "
+        "NAMESPACE_DNS), C13_assign_exact + tblSet_other (an assignment changes the role of exactly that class id), tblSet_has, C13_kconfig_duplicate_rejected, "
+        "C13_kconfig_examples (kernel-evaluated through the whole .config parser). Tie: names at the three sites through the real code (create, mpi generate, image boot "
+        "with generated build configurations incl. collisions between roles / with defaults / missing class names); expected identifiers recomputed with hashlib by the "
+        "harness; the envelope must land in exactly the configured role's slot.",
+   design="4 C13",
+   note=COMMON_NOTE + "SHA-1 is a parameter of the theorems; the driver's SHA-1 and the harness's hashlib computation are compared through every case.",
+   technique="Lean 4 proof (three modelled sites unified, table lemmas, kernel-evaluated parser examples) + end-to-end correspondence"),
 }
 
 NA_REASON = "check not yet built in this revision (work in progress; DESIGN.md section 4 describes the planned model and theorems)"
